@@ -366,7 +366,10 @@ def _run(plan, base):
                 e, tb = res["err"]
                 where = [ln.strip() for ln in tb.splitlines() if "waveform_extraction.py" in ln][-1:] or [""]
                 raise Violation("C13.W1", f"raises:{type(e).__name__}", f"extract_wfs_cbin raised {type(e).__name__}: {e} (chunksize={chunk}, n_jobs={n_jobs}, ns={ns}) {where[0]}")
-            outs[tag] = _load(od)
+            try:
+                outs[tag] = _load(od)
+            except Exception as e:
+                raise Violation("C13.W2", f"{sigbase}:files-unreadable:{type(e).__name__}", f"the saved files cannot be read back: {type(e).__name__}: {e} (chunksize={chunk}, n_jobs={n_jobs})")
             log.append([tag, chunk, n_jobs, sha1_file(od / "waveforms.traces.npy"), res["trace"][:300], res["tasks"]])
             _check_files(plan, tag, outs[tag], V, neigh, sp, valid, ns, nap, od, res, chunk, n_jobs, probe, stats, sigbase)
         if plan.get("real_joblib"):
